@@ -240,6 +240,19 @@ def _discharge(F, f, b, par, kind, x, text):
                         if y.get("k") == "Binary" and y["op"] == "Lt" and pp(strip(y["l"])) == name and const_eval(y["r"]) is not None \
                                 and const_eval(y["r"]) <= int(m.group(1)):
                             return "G-dom-lt: %s < %d <= %s" % (name, const_eval(y["r"]), m.group(1))
+        if iv == 0 and "filled" in pp(lhs) and root.endswith("::poll"):
+            # readbuf.filled()[0] in the poll decoder: the evaluated header transfer function (P-header, transport/eof cases)
+            # runs the zero-length read: it must come back as IoError(UnexpectedEof) -- an index into the empty slice would
+            # make that evaluation fail -- so the index is reached only with at least one byte filled
+            try:
+                from r_pollpe import PollRun, header_state, _ret_kind
+                from peval import NONE as _N2
+                pr = PollRun(F, header_state(_N2, 0, 0), [("eof",)]).run()
+                out = _ret_kind(pr.outcome[1]) if pr.outcome[0] == "returned" else pr.outcome
+                if out[:2] == ("err", "IoError"):
+                    return "G-nonempty: a zero-length read returns UnexpectedEof before the index (evaluated, P-header)"
+            except Exception:
+                pass
         if iv == 0 and "filled" in pp(lhs):
             # readbuf.filled()[0] after `size == 0 -> return`
             blk = _enclosing(par, x, ("Block",))
@@ -437,6 +450,11 @@ def s_loop(F, R):
                         if y.get("k") == "Call" and (y["fn"].get("name") in ("read_exact", "poll_read") or
                                                       (y["fn"].get("res") or y["fn"].get("def") or "").startswith("common::utils::read_")):
                             reads.append(y)
+                        elif y.get("k") == "Call" and (y["fn"].get("res") or y["fn"].get("def")) in F.fns:
+                            # a helper of the crate that performs the read (`poll_read_some(reader, cx, buf)`)
+                            hb = nbody(F, y["fn"].get("res") or y["fn"].get("def"))
+                            if hb is not None and any(z.get("k") == "Call" and z["fn"].get("name") in ("read_exact", "poll_read") for z in walk_all(hb)):
+                                reads.append(y)
                         if y.get("k") in ("If", "Loop", "While"):
                             pass
                 inner_loops = [y for y in walk_all(body) if y.get("k") == "Loop" and y is not x]
@@ -528,6 +546,24 @@ def _bounded(F, e, b, f, depth=0, seen=()):
         init = _resolve_let(b, e)
         if init is not e:
             return _all_tails_bounded(F, init, None, b, f, depth, seen)
+        # bound by a match-arm pattern: `match (a(), n()) { (None, body_len) => body_len, .. }` -> the scrutinee component
+        for n in walk_all(b):
+            if n.get("k") == "Match":
+                for arm in n["arms"]:
+                    pt = arm["pat"]
+                    while pt.get("k") == "Deref":
+                        pt = pt["sub"]
+                    if pt.get("k") == "Binding" and pt["var"]["id"] == vid:
+                        return _bounded(F, n["scrut"], b, f, depth + 1, seen)
+                    if pt.get("k") == "Leaf":
+                        for sub in pt.get("subs", []):
+                            q = sub["pat"]
+                            while q.get("k") == "Deref":
+                                q = q["sub"]
+                            if q.get("k") == "Binding" and q["var"]["id"] == vid:
+                                sc = unblock(strip(n["scrut"]))
+                                if sc.get("k") == "Tuple" and int(sub["idx"]) < len(sc["items"]):
+                                    return _bounded(F, sc["items"][int(sub["idx"])], b, f, depth + 1, seen)
         # bound by a tuple pattern: `let (x, rest) = match .. { .. => (a, r1), .. => (b, r2) }`
         for n in walk_all(b):
             if n.get("k") == "Block":
